@@ -610,6 +610,22 @@ func scenarios(out string) {
 	fld("field-write-ptr-converts", "hp.A = 2.9\nhp.A", wantV(int64(2)))
 	fld("field-write-ptr-illtyped", "hp.A = \"s\"", wantErr)
 	fld("field-unknown", "hp.Nope", wantErr)
+	// the same Go value reached through a list element, a map entry or a Go identity function (an interface in between)
+	fld("field-read-ptr-in-list", "a = [hp]\na[0].A", wantV(int64(1)))
+	fld("field-write-ptr-in-list", "a = [hp]\na[0].A = 7\nhp.A", wantV(int64(7)))
+	fld("field-write-ptr-in-map", "m = {\"k\": hp}\nm.k.B = \"w\"\nhp.B", wantV("w"))
+	fld("field-write-ptr-through-id", "id(hp).A = 8\nhp.A", wantV(int64(8)))
+	fld("field-write-ptr-through-script-fn", "f = func() { return hp }\nf().A = 9\nhp.A", wantV(int64(9)))
+	fld("method-ptr-recv-in-list", "a = [hp]\na[0].Ptr(1)\nhp.A", wantV(int64(2)))
+	fld("method-value-recv-through-id", "id(hv).Val(10)", wantV(int64(12)))
+	fld("field-write-sub-ptr", "hp.Sub = hp2\nhp.Sub.A = 5\nhp2.A", wantV(int64(5)))
+	// Go slices of concrete types spread into variadic Go functions: every element arrives, converted element-wise
+	fld("spread-typed-slice-into-iface-variadic", "cnt(ss...)", wantV(int64(2)))
+	fld("spread-typed-slice-into-iface-variadic-values", "col(ss...)", wantV([]interface{}{"a", "b"}))
+	fld("spread-int-slice-into-iface-variadic", "col(sl...)", wantV([]interface{}{int64(1), int64(2)}))
+	fld("spread-int-slice-into-int-variadic", "sum(sl...)", wantV(int64(3)))
+	fld("spread-script-list-into-int-variadic", "sum([1, 2, 4]...)", wantV(int64(7)))
+	fld("spread-typed-after-fixed", "joinp(\"p\", ss...)", wantV("p:a,b"))
 	fld("method-value-recv", "hv.Val(10)", wantV(int64(12)))
 	fld("method-value-recv-on-ptr", "hp.Val(10)", wantV(int64(11)))
 	fld("method-ptr-recv-on-ptr", "hp.Ptr(1)\nhp.A", wantV(int64(2)))
@@ -652,6 +668,26 @@ func scenarios(out string) {
 			}
 		})
 		e.Define("tn", func(x interface{}) string { return fmt.Sprintf("%T", x) })
+		e.Define("hp2", &Host{A: 0, B: "sub"})
+		hp.Sub = nil
+		e.Define("ss", []string{"a", "b"})
+		e.Define("sl", []int64{1, 2})
+		e.Define("cnt", func(xs ...interface{}) int64 { return int64(len(xs)) })
+		e.Define("col", func(xs ...interface{}) []interface{} { return append([]interface{}{}, xs...) })
+		e.Define("sum", func(xs ...int64) int64 {
+			var t int64
+			for _, x := range xs {
+				t += x
+			}
+			return t
+		})
+		e.Define("joinp", func(p string, xs ...interface{}) string {
+			var parts []string
+			for _, x := range xs {
+				parts = append(parts, fmt.Sprint(x))
+			}
+			return p + ":" + strings.Join(parts, ",")
+		})
 		e.Define("gi", func(x int64) int64 { return x })
 		if s.setup != nil {
 			s.setup(e)
